@@ -3,28 +3,38 @@ prop("C07",
                 "POST /v1/pool = CreateOrUpdate + preAllocateIP as move `apiPool`; Filter cut between count and allocation "
                 "(`decide7` / `applyDecision`, proved equal to the core getSubnet); an INTERLEAVING model `cstep` in which Filter and "
                 "pre-allocation are two-phase actions (take the pool lock + count | allocate + unlock) under a lock table keyed by "
-                "the regenerated lock-key STRINGS of the two call sites, with any other move - other filters, pool requests, "
-                "binds, unbinds, resync, API release, API truth and lister changes - allowed between the phases). Proved: "
+                "the regenerated lock-key STRINGS of the two call sites, with any other move allowed between the phases: EVERY "
+                "move of the plugin model - filters, Preempt (same getSubnet, same lock), pool requests, binds, event delivery, "
+                "both resync forms, API release, the pod-IP sync pass, administrator reservations, configuration reload, process "
+                "restart, API truth and lister changes, one failing apiserver and one failing provider call per move). Proved: "
                 "pool_count_le_size_seen (Filter that read size z: cnt' <= max cnt z, for any population of the pool), "
                 "filter_leaves_other_pools, prealloc_count_le_size, bind_does_not_grow_when_filter_allocated, "
-                "reachable_invariant + pool_never_exceeds_size_partial (the bound for EVERY step after EVERY interleaving), "
-                "second_counter_waits (mutual exclusion through the common lock string), model ties filter7_is_core_filter / "
-                "getSubnet_is_count_then_allocate, ten fact_* theorems (lock before count and held across the allocation on "
+                "other_moves_do_not_grow, reachable_invariant + pool_never_exceeds_size_partial (the bound for EVERY step after "
+                "EVERY interleaving), unsized_bind_has_no_pool_object, second_counter_waits (mutual exclusion through the common "
+                "lock string), model ties filter7_is_core_filter / getSubnet_is_count_then_allocate, "
+                "filter_that_saw_pool_makes_bind_ok, ten fact_* theorems (lock before count and held across the allocation on "
                 "both sides, SAME lock string on both sides as a theorem about regenerated key functions, server wiring, "
-                "counting rule, >=, allocate-during-filter condition). pool_never_exceeds_size_counter: DESIGN D15 on the model.",
-     level_note="_partial: side condition `callowed` - (a) reload / restart / pod-IP sync are outside the move set (the property "
-                "quantifies over filter, bind and pool-update requests); (b) at every bind of a pod with a pool annotation the pod "
-                "already owns an address for every request (bindOK), i.e. the preceding Filter allocated it. (b) is NOT guaranteed "
-                "by the code: a pod filtered before the Pool object existed is bound without looking at the size (counter theorem; "
-                "replay corpus/C07/d15.ops breaks the real code; known finding bind-after-unsized-filter-exceeds-size). Pools of "
-                "the configuration have a node subnet (WFPools; the real decoder rejects a pool without). The property speaks "
-                "about deployments: pods of other workload kinds carrying a pool annotation are bound without size check and are "
-                "excluded by (b) as well.",
+                "counting rule, >=, allocate-during-filter condition). Counter theorems on the model: "
+                "pool_never_exceeds_size_counter (DESIGN D15), sync_pass_counter (pod-IP sync pass).",
+     level_note="_partial: side condition `callowed`, on four moves only - (a) bind: the pod already owns an address for every "
+                "request (bindOK: what a Filter that saw the Pool object leaves behind) OR its pool is not a sized pool at that "
+                "moment (no Pool object of that name, nobody counting for it; such a step is reported as unsizedBind instead of "
+                "bounded - the property speaks of sized pools); (b) syncPodIPs: the pass re-creates no pool record (syncOK); "
+                "(c) reload: new pools have a node subnet and no store object orphaned by an earlier reload belongs to a pool; "
+                "restart: no such orphan. (a) and (b) are NOT guaranteed by the code: a pod filtered while the Pool object was not "
+                "visible is bound without looking at the size (replay corpus/C07/d15.ops, known finding "
+                "bind-after-unsized-filter-exceeds-size), and syncPodIP re-creates the released record of a Running pod of a stale "
+                "lister without looking at the size (replay corpus/C07/syncpodip.ops, known finding pool-exceeds-size:syncips). "
+                "Pools of the initial configuration have a node subnet (WFPools; the real decoder rejects a pool without). "
+                "Pods of other workload kinds carrying a pool annotation count as members but never go through the sized branch "
+                "and always allocate at bind: the property text speaks of 'pods of the deployments that share the pool', so they "
+                "are OUTSIDE the property (covered by (a) only while the pool is unsized; the harness monitor skips their binds).",
      technique="Lean 4 inductive invariant over a two-phase interleaving model parameterised by regenerated structural facts (factgen "
                "c07) + differential correspondence of the REAL FloatingIPPlugin and the REAL PoolController handlers (httptest, wired "
                "like pkg/ipam/server) with the model (driver extension Galaxy/Drv/PluginC07.lean executed by the Lean interpreter; "
                "the lakefile has no executable for it) on generated histories of <= 3 deployments x <= 4 pods sharing a sized pool, "
-               "sizes 0-4, pool create/update with and without pre-allocation, store faults; monitor after every step; REAL "
+               "sizes 0-4, pool create/update with and without pre-allocation, store faults, API release, pod-IP sync, restart, reload, "
+               "a statefulset pod with pool annotation in 10 % of the histories; monitor after every step; REAL "
                "concurrency: forced two-goroutine schedules (one side parked between count and allocation by an IPAM decorator, the "
                "other side must block) and free-running races of 12 filters + 3 pre-allocating pool requests",
      factgen=["plugin", "c07"],
